@@ -29,7 +29,7 @@ VARIANTS = (
 def schur_cases(draw, tier):
     n = draw(st.integers(1, 6 if tier == "quick" else 7))
     kind = draw(st.sampled_from(["generic", "generic", "hermitian", "triangular", "normal", "lowrank", "int",
-                                 "lower_triangular", "hessenberg", "banded", "sparse_units", "block_diag"]))
+                                 "lower_triangular", "hessenberg", "banded", "sparse_units", "block_diag", "unitary", "unitary"]))
     if kind == "generic":
         A = draw(gen.qarray(n, n, "generic"))[0] / 4.0
     elif kind == "int":
@@ -60,6 +60,17 @@ def schur_cases(draw, tier):
             A[c:, :c] = 0.0
             if draw(st.booleans()):
                 A[:c, c:] = 0.0
+    elif kind == "unitary":
+        # unitary matrices (all eigenvalues on one circle) are stationary points of the unshifted QR iteration: dense
+        # unitary, signed permutation times basis units, reflections; one common scale
+        uk = draw(st.sampled_from(["dense", "exact", "reflection"]))
+        if uk == "dense":
+            A = draw(gen.unitary(n))
+        elif uk == "exact":
+            A = draw(gen.exact_unitary(n))
+        else:
+            A = gen.householder(draw(gen.qarray(n, 1, "int"))[0][:, 0, :] + np.array([1.0, 0, 0, 0]))
+        A = A * draw(st.sampled_from([1.0, 1.0, 0.5, 4.0]))
     elif kind == "sparse_units":
         A = draw(gen.qarray(n, n, draw(st.sampled_from(["sparse", "units"]))))[0]
     elif kind == "normal":
